@@ -5,6 +5,7 @@
 -/
 import Coraza.Properties.C15
 import Coraza.Proofs.Utf8
+import Coraza.Proofs.RegexBudget
 open Coraza Coraza.Op Coraza.Tf
 
 /-- **C15_validateUtf8Encoding**: the operator matches exactly the values that are not the UTF-8 encoding of any
@@ -23,3 +24,12 @@ example : validateUtf8Encoding [0xef, 0xbf, 0xbd] = false := by decide   -- U+FF
 example : utf8Encode 0xfffd = [0xef, 0xbf, 0xbd] ∧ isScalar 0xfffd = true := by decide
 example : validateUtf8Encoding [0xc0, 0x80] = true ∧ validateUtf8Encoding [0xed, 0xa0, 0x80] = true ∧
     validateUtf8Encoding [0xf4, 0x90, 0x80, 0x80] = true ∧ validateUtf8Encoding [0xe4, 0xbd] = true := by decide
+
+/-- the matcher the correspondence drivers run (`searchB`: the derivative matcher with a size budget) never
+    answers differently from `search`, the matcher C15_rx_exact is about; when the budget is exceeded the
+    input is not compared -/
+theorem C15_rx_budget_sound (cap : Nat) (r : Coraza.Regex.Re) (s : Bytes) (b : Bool)
+    (h : Coraza.Regex.searchB cap r s = some b) : Coraza.Regex.search r s = b :=
+  Coraza.Regex.searchB_sound cap r s b h
+
+example : (Coraza.Regex.parse {} (b!"a+b")).bind (Coraza.Regex.searchB 4000 · (b!"xaab")) = some true := by decide +kernel
